@@ -277,6 +277,31 @@ theorem constant_keeps_construction_object (w : World) (inv : Inv w) (k : ClsId)
   have hI : (doMkInst w k kwargs).1.insts[w.insts.length]? = some I := by rw [h1]; simp
   exact (set_instance_keeps_own _ ops hops _ I x hI).1 _ hinit
 
+/-- **C12 (instantiate / constant with a `None` or scalar default).**  When the class default is `None` (or
+an int) at construction time, an `instantiate=True` or `constant` parameter not given as keyword is
+still *stored* on the new instance (`deepcopy(None)` / a reference to `None`): the instance owns that
+value, so reassigning the class default later — to a list, say — does not show through on it. -/
+theorem scalar_default_stored_at_construction (w : World) (inv : Inv w) (k : ClsId)
+    (kwargs : List (Name × Lit)) (hok : (doMkInst w k kwargs).2 = none)
+    (x : Name) (hx : x ∈ w.visible k) (hkw : x ∉ kwargs.map (·.1)) (k' : ClsId) (P : PObj)
+    (hr : w.resolve k x = some (k', P)) (hic : P.instantiate = true ∨ P.constant = true)
+    (hd : P.default = .none ∨ ∃ n, P.default = .int n)
+    (ops : List Op) (hops : ∀ op ∈ ops, classOp op = true) :
+    (run (doMkInst w k kwargs).1 ops).getInst w.insts.length x = some P.default := by
+  obtain ⟨I, h1, _, _, h4⟩ := doMkInst_values inv.boundedCls hok
+  have hinit := h4 x hx hkw k' P hr
+  have hI : (doMkInst w k kwargs).1.insts[w.insts.length]? = some I := by rw [h1]; simp
+  have hv : aget I.values x = some P.default := by
+    unfold InitOK at hinit
+    by_cases hi : P.instantiate = true
+    · simp only [hi, if_true] at hinit
+      rcases hd with hd | ⟨n, hd⟩ <;> simp only [hd] at hinit ⊢ <;> exact hinit
+    · rcases hic with h | h
+      · exact absurd h hi
+      · simp only [hi, h, if_true] at hinit
+        simpa using hinit
+  exact (set_instance_keeps_own _ ops hops _ I x hI).1 _ hv
+
 /-- **C12 (instantiate_true_copied_so_mutation_private).**  For a parameter with `instantiate=True`
 whose class default is a container `d`, a successful `K(**kwargs)` (not naming it) stores a *new*
 container with equal contents; nobody but the new instance references it, not then and not after any
